@@ -121,25 +121,31 @@ inductive SortBy where
   | filename | error
   deriving DecidableEq, Repr
 
-/-- lexicographic comparison of the key tuples; plain strings sort first (their key is `("", s)`) -/
+/-- lexicographic `≤` on pairs, built from `≤` on the components (Python's tuple comparison) -/
+def lexLe {α β : Type} [DecidableEq α] (le₁ : α → α → Bool) (le₂ : β → β → Bool) (a b : α × β) : Bool :=
+  if a.1 = b.1 then le₂ a.2 b.2 else le₁ a.1 b.1
+
+def leInt (a b : Int) : Bool := decide (a ≤ b)
+def leNat (a b : Nat) : Bool := decide (a ≤ b)
+
+/-- the key tuple of `sort_errors` for a diagnostic -/
+def keyFilename (d : Diag) : Str × Int × Int × Str × Nat := (d.file, d.line, d.col, d.pfx, d.code)
+def keyError (d : Diag) : Str × Nat × Str × Int × Int := (d.pfx, d.code, d.file, d.line, d.col)
+
+def leKeyFilename : (Str × Int × Int × Str × Nat) → (Str × Int × Int × Str × Nat) → Bool :=
+  lexLe leChars (lexLe leInt (lexLe leInt (lexLe leChars leNat)))
+def leKeyError : (Str × Nat × Str × Int × Int) → (Str × Nat × Str × Int × Int) → Bool :=
+  lexLe leChars (lexLe leNat (lexLe leChars (lexLe leInt leInt)))
+
+/-- comparison of the key tuples; plain strings sort first (their key is `("", s)`) -/
 def leItem (by_ : SortBy) : Item → Item → Bool
   | .text a, .text b => leChars a b
   | .text _, .diag _ => true
   | .diag _, .text _ => false
   | .diag a, .diag b =>
     match by_ with
-    | .filename =>
-      if a.file ≠ b.file then leChars a.file b.file
-      else if a.line ≠ b.line then a.line ≤ b.line
-      else if a.col ≠ b.col then a.col ≤ b.col
-      else if a.pfx ≠ b.pfx then leChars a.pfx b.pfx
-      else a.code ≤ b.code
-    | .error =>
-      if a.pfx ≠ b.pfx then leChars a.pfx b.pfx
-      else if a.code ≠ b.code then a.code ≤ b.code
-      else if a.file ≠ b.file then leChars a.file b.file
-      else if a.line ≠ b.line then a.line ≤ b.line
-      else a.col ≤ b.col
+    | .filename => leKeyFilename (keyFilename a) (keyFilename b)
+    | .error => leKeyError (keyError a) (keyError b)
 
 /-- the tail of `run_refurb`: drop what is ignored, then sort -/
 def report (by_ : SortBy) (keep : Item → Bool) (items : List Item) : List Item :=
